@@ -33,6 +33,9 @@ def run(rec, hub, tier, seed, shard, nshards, budget):
         if k % 6 == 1:
             rec.set_case(driver="c17.shared", seed=seed, tier=tier, shard=shard, nshards=nshards, idx=i)
             dsm.c17_shared_model_case(rec, hub, case_nprng(seed, "c17.shared", 0, i), tier)
+        if k % 10 == 8:
+            rec.set_case(driver="c17.prmdtype", seed=seed, tier=tier, shard=shard, nshards=nshards, idx=i)
+            dsm.c17_first_prms_dtype_case(rec, hub, case_nprng(seed, "c17.prmdtype", 0, i), tier)
         if k % 10 == 5:
             rec.set_case(driver="c17.singular", seed=seed, tier=tier, shard=shard, nshards=nshards, idx=i)
             dsm.c17_singular_case(rec, hub, case_nprng(seed, "c17.singular", 0, i), tier)
@@ -54,6 +57,9 @@ def replay(rec, hub, case):
 
     bystand.register(hub, "C17")
     rec.set_case(**case)
+    if case["driver"] == "c17.prmdtype":
+        dsm.c17_first_prms_dtype_case(rec, hub, case_nprng(case["seed"], "c17.prmdtype", 0, case["idx"]), case.get("tier", "quick"))
+        return
     if case["driver"] == "c17.singular":
         dsm.c17_singular_case(rec, hub, case_nprng(case["seed"], "c17.singular", 0, case["idx"]), case.get("tier", "quick"))
         return
